@@ -7,6 +7,10 @@ tid values: 0..T-1 threads, T+j "process j exits by itself", T+J stutter (only a
 
 from __future__ import annotations
 
+import os
+import shutil
+import subprocess
+import tempfile
 import time
 
 import z3
@@ -15,8 +19,10 @@ from lib.procbmc import END, IDLE, P_RUN, Model, sort_of
 
 
 class Enc:
-    def __init__(self, model: Model, steps: int):
-        self.m, self.N = model, steps
+    def __init__(self, model: Model, steps: int, por: bool = False):
+        self.m, self.N, self.por = model, steps, por
+        self.res_index: dict[str, int] = {}
+        self.masks = []
         self.T, self.J = len(model.threads), model.J
         self.STUTTER = self.T + self.J
         self.consts = {c: z3.Bool(c) for c in model.consts}
@@ -33,6 +39,8 @@ class Enc:
         self.states.append(s0)
         for k in range(steps):
             self._step(k)
+        if por:
+            self._por()
 
     # ---- expressions ------------------------------------------------------------------------------------------
     def V(self, S, name):
@@ -80,6 +88,66 @@ class Enc:
         if t == "bool":
             return self.C(S, rhs[1])
         raise ValueError(rhs)
+
+    # ---- partial-order reduction -------------------------------------------------------------------------------
+    def _vars_of(self, e, acc):
+        if isinstance(e, tuple):
+            if e and e[0] in ("b", "nb", "eq", "ne", "var", "inc"):
+                acc.add(e[1])
+            elif e and e[0] in ("eqv", "succ_eq", "succ_ne"):
+                acc.add(e[1]); acc.add(e[2])
+            else:
+                for x in e[1:]:
+                    self._vars_of(x, acc)
+        elif isinstance(e, list):
+            for x in e:
+                self._vars_of(x, acc)
+
+    def job_local(self, th, n):
+        """j if every variable the node reads or writes is a per-job variable of job j (or the thread's own pc /
+        crash flag or an environment constant), else None"""
+        vs = set()
+        for o in n.outs:
+            self._vars_of(o.cond, vs)
+            for var, rhs in o.effects:
+                vs.add(var)
+                self._vars_of(rhs, vs)
+        jobs = set()
+        for v in vs:
+            if v in (f"pc{th.idx}", f"crash{th.idx}"):
+                continue
+            base = v.rstrip("0123456789")
+            if base in ("proc", "pf", "exc", "tf", "early", "started", "done", "nset", "igterm", "hasto", "pfail"):
+                jobs.add(int(v[len(base):]))
+            else:
+                return None
+        return jobs.pop() if len(jobs) == 1 else None
+
+    def _por(self):
+        """Partial-order reduction: two adjacent steps of different threads that are both *job-local* (touch only the
+        per-job variables of one job and their own pc) to two different jobs commute; only the order with the smaller
+        thread id first is kept.  Every Mazurkiewicz trace keeps its lexicographically least linearisation (same
+        length, same end state), so reachability of end states within N steps is unchanged."""
+        J = self.J
+        table = []
+        for th in self.m.threads:
+            for n in th.nodes.values():
+                j = self.job_local(th, n)
+                if j is not None:
+                    table.append((th.idx, n.id, j))
+        self.por_nodes = len(table)
+        jl = []
+        for k in range(self.N):
+            S = self.states[k]
+            e = z3.BitVecVal(J, 3)
+            for j in range(J):
+                e = z3.If(self.tid[k] == self.T + j, z3.BitVecVal(j, 3), e)
+            for t, nid, j in table:
+                e = z3.If(z3.And(self.tid[k] == t, S[f"pc{t}"] == nid), z3.BitVecVal(j, 3), e)
+            jl.append(e)
+        for k in range(self.N - 1):
+            self.constraints.append(z3.Not(z3.And(z3.UGT(self.tid[k], self.tid[k + 1]), jl[k] != J, jl[k + 1] != J,
+                                                  jl[k] != jl[k + 1])))
 
     # ---- transition -------------------------------------------------------------------------------------------
     def _step(self, k):
@@ -137,15 +205,59 @@ class Enc:
         return self.states[self.N]
 
     # ---- solving --------------------------------------------------------------------------------------------------
-    def solve(self, extra, timeout_s=120):
+    def choice_consts(self):
+        return list(self.tid) + list(self.out) + list(self.consts.values())
+
+    def solve(self, extra, timeout_s=120, inproc_ms=1000):
+        """-> (status, z3 model or None, seconds, backend).  z3 in-process gets a short budget (it finds the shallow
+        satisfying schedules); yices-smt2 then decides the query (it refutes these unrollings 50-100x faster than z3
+        4.12); a `sat` answer of yices is turned back into a z3 model by pinning the schedule."""
+        from lib import portfolio
+        t0 = time.time()
         s = z3.SolverFor("QF_BV")
-        s.set("timeout", int(timeout_s * 1000))
+        s.set("timeout", int(inproc_ms))
         s.add(self.constraints)
         s.add(extra)
-        t0 = time.time()
         r = s.check()
-        dt = time.time() - t0
-        return str(r), (s.model() if r == z3.sat else None), dt
+        if r != z3.unknown:
+            return str(r), (s.model() if r == z3.sat else None), time.time() - t0, "z3"
+        if not portfolio.YICES_BIN:
+            s.set("timeout", int(timeout_s * 1000))
+            r = s.check()
+            return str(r), (s.model() if r == z3.sat else None), time.time() - t0, "z3"
+        d = tempfile.mkdtemp(prefix="c17q")
+        try:
+            f = os.path.join(d, "q.smt2")
+            cc = self.choice_consts()
+            with open(f, "w") as fh:
+                fh.write(_smt2(list(self.constraints) + list(extra), cc))
+            try:
+                p = subprocess.run([portfolio.YICES_BIN, f"--timeout={max(1, int(timeout_s))}", f],
+                                   capture_output=True, text=True, timeout=timeout_s + 30)
+                out = p.stdout
+            except subprocess.TimeoutExpired:
+                out = "unknown"
+        finally:
+            shutil.rmtree(d, ignore_errors=True)
+        first = out.strip().split("\n", 1)[0].strip() if out.strip() else "unknown"
+        if first == "unsat":
+            return "unsat", None, time.time() - t0, "yices"
+        if "(error" in out or first != "sat":
+            return "unknown", None, time.time() - t0, "yices"
+        vals = portfolio._parse_get_value(out.split("\n", 1)[1] if "\n" in out else "")
+        s2 = z3.SolverFor("QF_BV")
+        s2.set("timeout", 60000)
+        s2.add(self.constraints)
+        s2.add(extra)
+        for c in cc:
+            v = vals.get(c.sexpr(), vals.get(str(c)))
+            if v is None:
+                continue
+            s2.add(c == (bool(v) if z3.is_bool(c) else int(v)))
+        r = s2.check()
+        if r != z3.sat:   # the two solvers disagree on a pinned schedule: report as undecided, the caller flags it
+            return "disagree", None, time.time() - t0, "yices"
+        return "sat", s2.model(), time.time() - t0, "yices"
 
     def witness(self, mdl):
         """concrete schedule + per-step expected parked map + final model state"""
@@ -184,3 +296,58 @@ class Enc:
         SN = self.states[len(steps)] if len(steps) < self.N else self.states[self.N]
         final = {v: val(SN, v) for v in SN}
         return {"consts": consts, "steps": steps, "parked_init": parked(self.states[0]), "final": final}
+
+
+def _smt2(assertions, consts) -> str:
+    s = z3.Solver()
+    s.add(assertions)
+    names = " ".join(c.sexpr() for c in consts)
+    return ("(set-option :produce-models true)\n(set-logic QF_BV)\n" + s.to_smt2().replace("(set-info :status unknown)", "")
+            + f"(get-value ({names}))\n")
+
+
+# ----------------------------------------------------------------------------------------------------------------
+# replay on the real classes (subprocess running lib/procreplay.py) and state comparison
+# ----------------------------------------------------------------------------------------------------------------
+def replay_job(model: Model, wit: dict, src_dir: str, probe: bool = True) -> dict:
+    return {"src": src_dir, "scenario": model.sc.to_json(), "consts": wit["consts"],
+            "gate_lines": model.gate_lines(), "stmt_of": {str(k): v for k, v in model.src.stmt_of.items()},
+            "steps": wit["steps"], "parked_init": wit["parked_init"], "probe": probe}
+
+
+def run_replay(job: dict, timeout=60) -> dict:
+    import json
+    import sys
+    verif = os.path.dirname(os.path.dirname(os.path.abspath(__file__)))
+    env = dict(os.environ)
+    env["PYTHONPATH"] = verif + os.pathsep + env.get("PYTHONPATH", "")
+    env["PYTHONDONTWRITEBYTECODE"] = "1"
+    try:
+        p = subprocess.run([sys.executable, "-m", "lib.procreplay"], input=json.dumps(job), capture_output=True,
+                           text=True, timeout=timeout, cwd=verif, env=env)
+    except subprocess.TimeoutExpired:
+        return {"status": "diverged", "reason": "replay subprocess timed out"}
+    try:
+        return json.loads(p.stdout)
+    except Exception:
+        return {"status": "diverged", "reason": "replay subprocess failed: " + (p.stderr or p.stdout)[-400:]}
+
+
+def compare_state(model: Model, final: dict, obs: dict) -> list[str]:
+    """differences between the model's predicted end state and the state observed on the real classes"""
+    diffs = []
+
+    def chk(name, a, b):
+        if a != b:
+            diffs.append(f"{name}: model {a} real {b}")
+    chk("flag", bool(final["flag"]), obs["flag"])
+    chk("lock held", final["lock"] != 63, obs["locked"])
+    chk("sdret", bool(final["sdret"]), obs["sdret"])
+    reg = sorted((final[f"regpos{j}"], j) for j in range(model.J) if final[f"regpos{j}"] != 7)
+    chk("registry", [j for _, j in reg], obs["registry"])
+    for j in range(model.J):
+        for v in ("proc", "pf", "exc", "done", "nset", "started", "acc", "rej", "res"):
+            a = final[f"{v}{j}"]
+            b = obs[f"{v}{j}"]
+            chk(f"{v}{j}", int(a) if not isinstance(a, bool) else a, int(b) if not isinstance(b, bool) else b)
+    return diffs
